@@ -153,6 +153,23 @@ Theorem C18_cluster_late_first_write :
 Proof. exact c_late_write_after_cleanup. Qed.
 Print Assumptions C18_cluster_late_first_write.
 
+(** the shared variable survives between uploads to the same (bucket, key): whatever an earlier,
+    abandoned upload left in it, [prep_client] resets it and the new upload starts from [c_init],
+    so all the statements above apply to it ... *)
+Theorem C18_cluster_new_upload_ignores_stale_variable :
+  forall v0 progs, c_init_after v0 progs = c_init progs.
+Proof. exact c_init_after_is_init. Qed.
+Print Assumptions C18_cluster_new_upload_ignores_stale_variable.
+
+(** ... whereas a [prep_client] that only binds the variable lets the new upload's workers pick
+    the stale id: no initiation, the part uploaded under the abandoned upload's id *)
+Theorem C18_cluster_prep_without_reset_refuted :
+  exists lbs s, c_run std_id (c_init_var (c_prep_client_noreset (Some 7)) [(0%nat, [OWrite 1])])
+                      (repeat 0%nat 6) = Some (lbs, s) /\
+    c_all_done s /\ c_creates (fst s) = 0%nat /\ c_log (fst s) = [KUpload 1 7].
+Proof. exact c_stale_variable_without_reset. Qed.
+Print Assumptions C18_cluster_prep_without_reset_refuted.
+
 Example C18_cluster_example :
   exists lbs s, c_run std_id (c_init c_example_progs) c_example_sched = Some (lbs, s) /\
     c_deleted (fst s) = false /\ c_all_done s /\ c_creates (fst s) = 1%nat.
